@@ -38,7 +38,8 @@ def describe(tier):
                 "/ time conditions only). Oracle: flatten(resolved tree) == flatten(parse(R6(expr))) where R6 is the textual bracketed "
                 "substitution and the parse uses the real parser with both flags off (I3: only U/O/X runs are flattened, juxtaposition is "
                 "compared exactly); exactly one package level is expanded; any occurrence of a missing package => NotImplementedError. "
-                "All 1-2 atom expressions x all tables are also resolved with the table delivered by the library's DictBasedPackageResolver "
+                "Chains with 6 and 7 (thorough: 11) package occurrences (the three rotations of three packages over the positions, and "
+                "each of them with one position replaced by a key / another package / a time condition) as condition expression and split over two modal mark parts. All 1-2 atom expressions x all tables are also resolved with the table delivered by the library's DictBasedPackageResolver "
                 "(evaluator_factory) and ContentEvaluationResultBasedPackageResolver. Also through expand_packages / expand_time_conditions called directly, and (5 expressions with 2-3 package occurrences x 3 "
                 "tables) under ALL completion orders of a package resolver that really suspends (virtual event loop). Non-trivial = >= 2 abbreviations in the string.",
         "bounds": BOUNDS[tier],
@@ -74,6 +75,10 @@ ORDER_EXPRS = ["[1P] U [2P]", "[1P0..1] U ([2P] O [3P])", "([1P][901]) X [2P] X 
 def plan(tier, seed):
     parts = 96 if tier == "quick" else 1024
     items = [{"tier": tier, "part": p, "parts": parts} for p in range(parts)]
+    # many package occurrences in one expression (6, 7, 11): every assignment of {1P, 2P, 3P} to the positions of U / O / juxtaposed chains
+    for n in (6, 7) if tier == "quick" else (6, 7, 11):
+        for op in ("U", "O", "X"):
+            items.append({"fam": "many", "n": n, "op": op})
     # the package tables delivered through the resolvers the library ships
     for mode in ("hardcoded", "cer", "methods"):
         for table in range(len(TABLES)):
@@ -212,6 +217,26 @@ def run_item(item):
     r = Result()
     if item.get("fam") == "orders":
         return _run_orders(item, r)
+    if item.get("fam") == "many":
+        n = item["n"]
+        pk = ("[1P]", "[2P]", "[3P9..10]")
+        combos = [tuple(pk[(i + s) % 3] for i in range(n)) for s in range(3)]
+        combos += [tuple(pk[(i + s) % 3] if i != d else alt for i in range(n)) for s in range(3) for d in range(n)
+                   for alt in ("[1]", "[1P]", "[UB3]")]
+        for atoms in combos:
+            expr = (" " + item["op"] + " ").join(atoms)
+            for s in (expr, "Muss " + " U ".join(atoms[:n // 2]) + " Soll " + " O ".join(atoms[n // 2:])):
+                for table in (0, 1):
+                    vs = check_case(s, table, True, True)
+                    r.evaluations += 1
+                    r.states += 1
+                    r.transitions += 2
+                    r.traces += 1
+                    r.nontrivial += 1
+                    for v in vs:
+                        r.violation(v["kind"], v["case"], v["expected"], v["observed"], v["msg"])
+            r.sample({"expr": expr, "family": "many"})
+        return r
     if item.get("fam") == "modes":
         from mc import impl_modes as M
 
